@@ -59,7 +59,8 @@ class Parallelogram(Domain):
         _, _, _, dir_1, dir_2 = self._construct_parallelogram(params, device=device)
         # volume equals the determinate of the matrix [dir_1, dir_2]
         volume = dir_1[:, :1] * dir_2[:, 1:] - dir_1[:, 1:] * dir_2[:, :1]
-        return volume
+        # the determinant is negative for clockwise ordered corners
+        return torch.abs(volume)
 
     def _construct_parallelogram(self, params=Points.empty(), device="cpu"):
         origin = self.origin(params, device).reshape(-1, 2)
@@ -278,6 +279,11 @@ class ParallelogramBoundary(BoundaryDomain):
         self._add_local_normal_vector(
             normals, bary_x, bary_y, normal_dir_1, normal_dir_2, 1.0
         )
+        # for clockwise ordered corners the edge normals above point inwards:
+        orientation = torch.sign(
+            dir_1[:, :1] * dir_2[:, 1:] - dir_1[:, 1:] * dir_2[:, :1]
+        )
+        normals = normals * orientation
         # scale normal vectors if there where in a corner:
         return torch.divide(normals, torch.linalg.norm(normals, dim=1).reshape(-1, 1))
 
